@@ -13,7 +13,7 @@ META = dict(
                 "with the reachability-closure definition of acyclicity of the non-zero pattern.",
     bounds=dict(
         quick="p in {1,2,3} fully symbolic Real and Int matrices (all 2^(p*p) patterns x all weights); p = 4 Real for topological_ordering/is_dag; constructors p <= 3",
-        thorough="as quick plus p = 4 Int, constructors at p = 4, and p = 5 Real restricted to matrices with at most 7 non-zero entries",
+        thorough="as quick plus p = 4 Int, constructors at p = 4, p = 5 Real restricted to matrices with at most 7 non-zero entries, and a CrossHair audit (second engine) of topological_ordering on 2 x 2 and 3 x 3 float matrices",
     ),
     outside=["non-square input, NaN/inf entries", "p > 5", "floating-point under/overflow (weights are exact reals)", "fixed-width integer wraparound and float under/overflow inside the implementation (the engine computes with mathematical integers and exact reals: integer-typed inputs are claimed only while all intermediate products / sums fit into int64; narrower integer dtypes such as int8 are outside)"],
     stubs=["numpy -> symnp (pure-Python shim over symbolic scalars)", "numpy.random.default_rng -> contract stub (LGANM constructor only)"],
